@@ -16,7 +16,7 @@ small_ints = st.sampled_from([0, 1, 1, 2, 2, 3, 3, 4, 5, 6, 7, 8, 9, 10, 12])
 big_ints = st.sampled_from([15, 24, 36, 100, 144, 1000, 4096, 65536, 999983, 10**6])
 dyadic = st.sampled_from(["0.5", "0.25", "1.5", "2.5", "0.75", "4.5", "0.125"])
 nondyadic = st.sampled_from(["0.1", "0.3", "2.7", "1.1", "0.7", "12.3"])
-odd_literals = st.sampled_from([".5", "5.", "0.50", "007", "1.0", "2.0"])
+odd_literals = st.sampled_from([".5", "5.", "0.50", "007", "1.0", "2.0", "0.00001", "0.0000025", "0.000123"])
 # literals a binary64 cannot hold (exact int coercion matters), and beyond the float range
 huge_literals = st.one_of(
     st.integers(2**53, 2**53 + 64).map(str),
@@ -185,6 +185,9 @@ def expr_text(draw, max_nodes=12, equation=None):
     if eq:
         ls = draw(st.integers(1, max(1, size - 1)))
         a = ("eq", draw(ast(ls)), draw(ast(max(1, size - ls))))
+        if draw(st.integers(0, 5)) == 0:
+            # the grammar allows chains: a = b = c
+            a = ("eq", a, draw(ast(draw(st.integers(1, 3)))))
     else:
         a = draw(ast(size))
     return render(a, explicit, sp)
@@ -207,6 +210,7 @@ TEMPLATES = {
         "({E} + ({F} + {a}{v})) + {b}{v}", "{a}{v} + (({b}{v} + {E}) + {F})", "{a}{v}^{m} + {b}{v}^{n}",
         "{a}{v} + {b}{w}", "{a}{v}^{m} + ({b}{v}^{m} + {E})", "-{v} + {a}{v}", "-{v}^{m} + {v}^{m}", "{a} + {b}{v}",
         "{a}{v} + {b}", "({E} + {a}{v}^{m}) + {b}{v}^{m}", "{a}{v}^{m} + {v}",
+        "{a}{v} - {b}{v}", "{a}{v} - ({b}{v} + {E})", "({E} + {a}{v}) - {b}{v}", "{a}{v} - ({b}{v} - {E})", "{a} - ({b} + {E})",
     ],
     "DM": ["{a}({b} + {c})", "({b} + {c}) * {a}", "{v} * ({E} + {F})", "{a}{v} * ({b} + {w})", "{v}({a} + {w})", "({E} + {F})({G} + {v})", "{v}^{m} * ({a} + {w})", "({a} + {v}) * {w}^{m}"],
     "MI": ["{E} / {F}", "{E} / -{F}", "{E} / -{v}", "({a} + {b}{v}) / -{v}", "{a} / -({E})", "{v} / {a}{w}", "{E} / {a}"],
@@ -230,7 +234,9 @@ TEMPLATES = {
         # longer sums, also nested where an addend must NOT be movable
         "{c} - ({v} + {a} + {w}) = {b}", "{a}({v} + {b} + {w}) = {c}", "-({v} + {a} + {w}) = {b}", "({v} + {a} + {w})^{m} = {b}", "{a} / ({v} + {b} + {w}) = {c}",
         "{c} - ({w} + ({v} + {a})) = {b}", "{v} + {a} + {w} = {b}", "{b} = {v} + {a} + {w}", "{d} = {a}{v} + {b} - {w}", "{w} + ({v} + {a}) = {b}", "{b} = {w} + ({v} + {a} + {u})",
-        "{v} + {a} + {b}{w} + {c} = {d}{u} + {w} + {a}", "{v} - {a} + {w} = {b}", "{b} = ({v} + {a}) - {w}", "{a}{v} + {b} - ({w} + {c} + {u}) = {d}", "sgn({v} + {a} + {w}) = {b}",
+        "{v} + {a} + {b}{w} + {c} = {d}{u} + {w} + {a}", "{v} - {a} + {w} = {b}",
+        # chained equations (the grammar allows a = b = c)
+        "{a}{v} = {b} = {w}", "{v} + {a} = {b} = {w}", "{w} = {a}{v} = {b}", "{v} = {b} = {w} + {a}", "{v} = {w} = {u}", "{a}{v} + {b} = {c}{w} = {d}", "{b} = ({v} + {a}) - {w}", "{a}{v} + {b} - ({w} + {c} + {u}) = {d}", "sgn({v} + {a} + {w}) = {b}",
     ],
 }
 CONTEXTS = [
@@ -355,6 +361,8 @@ def sweep_texts(groups=None):
                     if "=" not in t and (m, n) == ("2", "2"):
                         out.append(f"({t}) + w")
                         out.append(f"2 * ({t})")
+                        out.append(f"x^({t})")
+                        out.append(f"-({t})")
     seen = set()
     uniq = []
     for t in out:
